@@ -5,12 +5,14 @@ import WsVerif.Ops.Track
 import WsVerif.Ops.Select
 import WsVerif.Ops.History
 import WsVerif.Ops.Frame
+import WsVerif.Ops.Specpart
+import WsVerif.Ops.Native
 /-! Line-protocol driver: one request per line on stdin, one response per line on stdout.
     Each `WsVerif/Ops/*.lean` file contributes a list of named operations. -/
 open WS WS.Proto
 
 def allOps : List (String × P String) :=
-  WS.Ops.Stats.ops ++ WS.Ops.Peak.ops ++ WS.Ops.Track.ops ++ WS.Ops.Select.ops ++ WS.Ops.History.ops ++ WS.Ops.Frame.ops
+  WS.Ops.Stats.ops ++ WS.Ops.Peak.ops ++ WS.Ops.Track.ops ++ WS.Ops.Select.ops ++ WS.Ops.History.ops ++ WS.Ops.Frame.ops ++ WS.Ops.Specpart.ops ++ WS.Ops.Native.ops
 
 def dispatch (op : String) : P String :=
   match allOps.lookup op with
